@@ -256,11 +256,14 @@ def gram(rng, nblocks=None, final_newline=True):
 LINE_VOCAB_SMALL = [
     "", " ", "    ", "\t", ">", "> ", ">a|b", "> a|b", "> -|-", ">-|-", "a|b", "-|-", "-", "- a", "-  ", "  - b", "1.", "1. a",
     "    c", "\tc", "```", "~~~", "> ```", "#", "# h", "===", "---", "[r]: /u", "<div>", "a", "  a", "> > q", "* * *", "[r]",
+    # a marker followed by white space that is not space/tab, then a tab (whitespace classification differs between helpers)
+    ">\xa0\tx", "-\x0c\ty",
 ]
 LINE_VOCAB_EXTRA = [
     "   ", "     ", ">\t", ">  ", "> >", "- > a", "> - a", "-\t", "+", "2)", "10. x", "   - c", "      d", "####### n", "## h ##",
     "= ", "--", "***", "_ _ _", "[r]: <", "[r]:", "[r]: /u 't", "'", "</div>", "<!--", "-->", "<?", "<pre>", "|", "|-", ":-:",
     "a|", "`", "``", "\\", "*a", "a*", "![", "](", "&amp;", "\x00", "\xa0", "\x0b", "> [r]: /u", "- [r]: /u", ">    c", "-     c",
+    ">\u2003\t", ">\x0b\tq", "1.\u3000\tz", "#\xa0\th", "```\xa0i", ">\x85\t", "> \xa0\tx", "\xa0>\tx", "-\u2028\tl", "\x0c- a", "\u2029", "a\x1cb",
 ]
 
 
